@@ -142,85 +142,140 @@ def run_query(q, obj, other, cls, dim):
     H, P = cc._mods()
     M = H.Model
     models = (M.PROJECTIVE, M.KLEIN, M.POINCARE, M.HYPERBOLOID, M.HALFSPACE)
+    out = []            # every value the queries return (compared with the values a fresh object returns)
     if q == "projective_coords":
-        obj.projective_coords()
+        out.append(obj.projective_coords())
     elif q == "kleinian_coords":
-        obj.kleinian_coords()
-        obj.coords(M.KLEIN)
+        out.append(obj.kleinian_coords())
+        out.append(obj.coords(M.KLEIN))
     elif q == "affine_coords":
-        obj.affine_coords(chart_index=0)
+        out.append(obj.affine_coords(chart_index=0))
     elif q == "in_standard_chart":
-        obj.in_standard_chart()
+        out.append(obj.in_standard_chart())
     elif q == "get_edges":
         e = obj.get_edges()
         if cls == "HPolygon":
-            e.endpoint_coords(M.POINCARE)
-            e.endpoint_coords(M.HYPERBOLOID)
+            out.append(e.endpoint_coords(M.POINCARE))
+            out.append(e.endpoint_coords(M.HYPERBOLOID))
         else:
-            e.endpoint_affine_coords(0)
+            out.append(e.endpoint_affine_coords(0))
     elif q == "get_vertices":
         v = obj.get_vertices()
-        v.affine_coords(chart_index=0)
+        out.append(v.affine_coords(chart_index=0))
     elif q == "vertex_coords_all_models":
         v = obj.get_vertices()
         for m in models:
-            v.coords(m)
+            out.append(v.coords(m))
     elif q == "edges_circle_parameters":
         if dim == 2:
-            obj.get_edges().circle_parameters()
-            obj.get_edges().circle_parameters(degrees=False, model=M.HALFSPACE)
+            out.append(obj.get_edges().circle_parameters())
+            out.append(obj.get_edges().circle_parameters(degrees=False, model=M.HALFSPACE))
     elif q == "edges_ideal_endpoints":
-        obj.get_edges().ideal_endpoint_coords()
+        out.append(obj.get_edges().ideal_endpoint_coords())
     elif q == "endpoint_coords_all_models":
         for m in models:
-            obj.endpoint_coords(m)
+            out.append(obj.endpoint_coords(m))
     elif q == "ideal_endpoint_coords":
-        obj.ideal_endpoint_coords()
-        obj.ideal_endpoint_coords(M.POINCARE)
+        out.append(obj.ideal_endpoint_coords())
+        out.append(obj.ideal_endpoint_coords(M.POINCARE))
     elif q == "circle_parameters":
         if dim == 2:
-            obj.circle_parameters()
-            obj.circle_parameters(degrees=False, model=M.HALFSPACE)
+            out.append(obj.circle_parameters())
+            out.append(obj.circle_parameters(degrees=False, model=M.HALFSPACE))
     elif q == "sphere_parameters":
-        obj.sphere_parameters(M.POINCARE)
-        obj.sphere_parameters(M.HALFSPACE)
+        out.append(obj.sphere_parameters(M.POINCARE))
+        out.append(obj.sphere_parameters(M.HALFSPACE))
     elif q == "geodesic":
-        obj.geodesic().ideal_basis_coords()
+        out.append(obj.geodesic().ideal_basis_coords())
     elif q == "get_end_pair":
         a, b = obj.get_end_pair(as_points=True)
-        a.coords(M.HYPERBOLOID)
-        obj.get_endpoints().coords(M.HYPERBOLOID)
+        out.append(a.coords(M.HYPERBOLOID))
+        out.append(obj.get_endpoints().coords(M.HYPERBOLOID))
     elif q == "endpoint_distance":
         a, b = obj.get_end_pair(as_points=True)
-        a.distance(b)
+        out.append(a.distance(b))
     elif q == "origin_to":
-        obj.origin_to()
-        obj.origin_to(force_oriented=False)
+        out.append(obj.origin_to())
+        out.append(obj.origin_to(force_oriented=False))
     elif q == "isometry_to":
-        obj.isometry_to(other)
-        other.isometry_to(obj)
+        out.append(obj.isometry_to(other))
+        out.append(other.isometry_to(obj))
     elif q == "normalized":
-        obj.normalized()
-        obj.point
-        obj.vector
+        out.append(obj.normalized())
+        out.append(obj.point)
+        out.append(obj.vector)
     elif q == "angle":
-        obj.angle(other)
+        out.append(obj.angle(other))
     elif q == "point_along":
-        obj.point_along(0.5)
+        out.append(obj.point_along(0.5))
     elif q == "base_point_coords_all_models":
         p = H.Point(obj.point)
         for m in models:
-            p.coords(m)
+            out.append(p.coords(m))
     elif q == "coords_all_models":
         for m in models:
-            obj.coords(m)
+            out.append(obj.coords(m))
     elif q == "distance":
-        obj.distance(other)
-        other.distance(obj)
+        out.append(obj.distance(other))
+        out.append(other.distance(obj))
     elif q == "unit_tangent_towards":
-        obj.unit_tangent_towards(other)
+        out.append(obj.unit_tangent_towards(other))
     else:
         raise core.MachineryFailure("query %r of the specification has no binding" % q)
+    return out
+
+
+def _flat_values(x):
+    """numeric content of a query result (arrays, tuples of arrays, library objects)"""
+    if isinstance(x, (tuple, list)):
+        return [v for y in x for v in _flat_values(y)]
+    if hasattr(x, "proj_data"):
+        return [np.asarray(x.proj_data)] + ([np.asarray(x.aux_data)] if getattr(x, "aux_data", None) is not None else [])
+    try:
+        return [np.asarray(x).astype(complex)]
+    except Exception:
+        return []
+
+
+def results_differ(got, want, tol):
+    """Compare what a query returns on the object that went through the history with what it returns on a fresh
+    object of the same abstract state.  The two objects hold projectively equal but not bit-identical data, so only
+    well-conditioned outputs are compared: entries that are finite and of moderate size (< 1e6) in BOTH results;
+    whole arrays are first tried as equal up to tolerance, then as projectively equal rows (representatives and
+    frame-dependent matrices).  A stale memoised result differs grossly on ordinary entries."""
+    a, b = _flat_values(got), _flat_values(want)
+    if len(a) != len(b):
+        return "different number of returned arrays"
+    for x, y in zip(a, b):
+        x, y = np.asarray(x).astype(complex), np.asarray(y).astype(complex)
+        if x.shape != y.shape:
+            return "shape %r vs %r" % (x.shape, y.shape)
+        if x.size == 0:
+            continue
+        okm = np.isfinite(x) & np.isfinite(y) & (np.abs(x) < 1e6) & (np.abs(y) < 1e6)
+        if x.ndim >= 1:
+            # one huge or non-finite coordinate makes the whole row (a centre, a point) ill-conditioned
+            okm = okm & np.all(okm, axis=-1, keepdims=True)
+        if not okm.any():
+            continue
+        err = np.abs(x - y)[okm]
+        scale = np.maximum(1.0, np.abs(y)[okm])
+        if (err <= max(tol, 1e-6) * scale).all():
+            continue
+        if x.ndim == 0 or not okm.all():
+            # cannot try the projective comparison on partially ill-conditioned rows: only gross differences count
+            if (err > 1e-3 * scale).any():
+                return "values differ: %r vs fresh %r" % (np.round(x.ravel()[:6], 6).tolist(), np.round(y.ravel()[:6], 6).tolist())
+            continue
+        x2, y2 = x.reshape(-1, x.shape[-1]), y.reshape(-1, y.shape[-1])
+        nx, ny = np.linalg.norm(x2, axis=-1, keepdims=True), np.linalg.norm(y2, axis=-1, keepdims=True)
+        ok = bool((nx > 0).all() and (ny > 0).all())
+        if ok:
+            ph = np.sum((x2 / nx) * np.conj(y2 / ny), axis=-1)
+            ok = bool((np.abs(np.abs(ph) - 1) <= 1e-6).all())
+        if not ok and (err > 1e-3 * scale).any():
+            return "values differ: %r vs fresh %r" % (np.round(x.ravel()[:6], 6).tolist(), np.round(y.ravel()[:6], 6).tolist())
+    return None
 
 
 def battery(ctx, state):
@@ -232,6 +287,10 @@ def battery(ctx, state):
     other, (odata,) = cc.build(TABS, cls, dim, state["shape"], oids)
     whole = TABS.whole[cls]
     n = 0
+    # the same abstract state built from scratch: a query on the object that went through the history must return
+    # what it returns on this fresh object (stale memoised results, caches not invalidated by in-place edits)
+    fresh, _ = cc.build(TABS, cls, dim, state["shape"], ids)
+    fresh_other, _ = cc.build(TABS, cls, dim, state["shape"], oids)
     # chart-0 coordinates are defined only if every row of every unit has x_0 != 0 (flag computed by TLC)
     chart0 = all(TABS.units[dim][cls][i]["chart0"] for i in ids)
     for q in QUERIES[cls]:
@@ -244,11 +303,23 @@ def battery(ctx, state):
             with warnings.catch_warnings():
                 warnings.simplefilter("ignore")
                 with np.errstate(all="ignore"):
-                    run_query(q, obj, other, cls, dim)
+                    got = run_query(q, obj, other, cls, dim)
+                    want = run_query(q, fresh, fresh_other, cls, dim)
         except core.MachineryFailure:
             raise
         except Exception as e:
             return n, ("query.raised:" + q, "%s: %s" % (type(e).__name__, e))
+        # after astype(float32) the object carries single-precision data: near-degenerate outputs (radii of almost
+        # straight arcs, NaN patterns) legitimately differ from the double-precision fresh object
+        bad = results_differ(got, want, ctx.tol) if ctx.tol <= 1e-6 else None
+        if bad and q in ("circle_parameters", "edges_circle_parameters", "sphere_parameters"):
+            # centre, radius and angles of one unit belong together: when any of them is degenerate (a geodesic
+            # through the half-space point at infinity, a diameter) the others carry no information either
+            vals = _flat_values(got) + _flat_values(want)
+            if any((~np.isfinite(v)).any() or (np.abs(v[np.isfinite(v)]) > 1e6).any() for v in vals if v.size):
+                bad = None
+        if bad:
+            return n, ("query_result_differs_from_fresh_object:" + q, bad)
         m = cc.moved(before, obj, whole, tol=ctx.tol)
         if m:
             return n, ("query_moved_object:" + q, m)
@@ -289,7 +360,8 @@ def explore(ctx, key, state, hist, depth, st, qrate, rng, root=False):
         if len(st.viol) < 10:
             st.viol.append((list(hist), bad))
         return
-    if not ctx.complex and (root or qrate >= 1.0 or rng.random() < qrate):
+    edited = bool(hist) and "]=" in hist[-1]          # the last action was an item assignment
+    if not ctx.complex and (root or edited or qrate >= 1.0 or rng.random() < qrate):
         try:
             n, bad = battery(ctx, state)
             st.queries += n
